@@ -124,6 +124,27 @@ def expect(op, l, r, n, mode, prec=None):
         op = op[:-3]
     if op in ('try_from_str', 'try_from_string', 'parse'):
         op = 'from_str'
+    # feature num-traits (C15): Zero / One / Signed / Num agree with the inherent predicates and operators
+    if op == 'nt_is_zero':
+        return Expect(['B:%d' % (l.val == 0)])
+    if op == 'nt_is_one':
+        return Expect(['B:%d' % (l.val == 1)])
+    if op == 'nt_abs':
+        return Expect([D(abs(l.c), l.n)]) if in_i128(abs(l.c)) else Expect(['PANIC'])
+    if op == 'nt_signum':
+        return Expect([D(1 if l.val > 0 else -1 if l.val < 0 else 0, 0)])
+    if op == 'nt_is_positive':
+        return Expect(['B:%d' % (l.val > 0)])
+    if op == 'nt_is_negative':
+        return Expect(['B:%d' % (l.val < 0)])
+    if op == 'nt_abs_sub':
+        if l.val <= r.val:
+            return Expect([D(0, 0)])
+        return expect('sub', l, r, n, mode, prec)
+    if op == 'nt_from_str_radix':
+        if n != 10:
+            return Expect(['ERR:Invalid'])
+        return expect_from_str(l.s)
     if op in ('ne', 'lt', 'le', 'gt', 'ge'):
         import operator as _o
         f = {'ne': _o.ne, 'lt': _o.lt, 'le': _o.le, 'gt': _o.gt, 'ge': _o.ge}[op]
